@@ -506,6 +506,7 @@ func c13bGenRevolut2(r *rng, mal string) c13bCase {
 	quotesOK := r.chance(15)
 	c.quotes = quotesOK
 	dts := c13aNewDates(r)
+	pd := c13aNewPadder(r, mal)
 	rows := make([]c13aRow, n)
 	for i := range rows {
 		t := dts.next()
@@ -588,6 +589,8 @@ func c13bGenRevolut2(r *rng, mal string) c13bCase {
 				fields[pick(r, []int{5, 6, 9})] = pick(r, append(c13aBadAmounts, "", "1'234.50"))
 			case "cur":
 				fields[7] = pick(r, c13aBadCurs)
+			case "quote":
+				fields[4] = c13aBareQuote(r)
 			case "cols":
 				if r.chance(50) {
 					fields = fields[:9]
@@ -600,6 +603,7 @@ func c13bGenRevolut2(r *rng, mal string) c13bCase {
 			if k > 0 {
 				b.WriteByte(',')
 			}
+			b.WriteString(pd.pad(r))
 			b.WriteString(c13aCsvField(r, f, ',', k == 4 && r.chance(70)))
 		}
 		b.WriteString(pick(r, []string{"\n", "\n", "\r\n"}))
@@ -650,6 +654,7 @@ func c13bGenRevolut(r *rng, mal string) c13bCase {
 	quotesOK := r.chance(15)
 	c.quotes = quotesOK
 	ascending := r.chance(15) // oldest first is consistent only with one row per day
+	pd := c13aNewPadder(r, mal)
 	dts := c13aNewDates(r)
 	type row struct {
 		date   time.Time
@@ -757,6 +762,8 @@ func c13bGenRevolut(r *rng, mal string) c13bCase {
 						fields[3] = pick(r, c13aBadAmounts)
 					}
 				}
+			case "quote":
+				fields[1] = c13aBareQuote(r)
 			case "cols":
 				if r.chance(50) {
 					fields = fields[:8]
@@ -769,6 +776,7 @@ func c13bGenRevolut(r *rng, mal string) c13bCase {
 			if k > 0 {
 				b.WriteByte(';')
 			}
+			b.WriteString(pd.pad(r))
 			if k == 1 || k == 7 || k == 8 {
 				b.WriteString(c13aCsvField(r, f, ';', false))
 			} else {
@@ -793,6 +801,7 @@ func c13bGenWise(r *rng, mal string) c13bCase {
 		"acct":    pick(r, []string{"Assets:Accounts:Wise", "Assets:Wise", "Assets:Bank:Wise:Multi", "Assets:W"}),
 		"fee":     pick(r, []string{"Expenses:Fees", "Expenses:Bank:Fees", "Expenses:F"}),
 		"trading": pick(r, []string{"Expenses:Trading", "Equity:Trading", "Income:FX"})}}
+	pd := c13aNewPadder(r, mal)
 	n := c13aRowCount(r)
 	if mal != "" && n == 0 {
 		n = 3
@@ -935,6 +944,8 @@ func c13bGenWise(r *rng, mal string) c13bCase {
 				default:
 					fields[pick(r, []int{11, 14})] = pick(r, c13aBadCurs)
 				}
+			case "quote":
+				fields[pick(r, []int{4, 9, 12})] = c13aBareQuote(r)
 			case "cols":
 				if r.chance(50) {
 					fields = fields[:17]
@@ -947,6 +958,7 @@ func c13bGenWise(r *rng, mal string) c13bCase {
 			if k > 0 {
 				b.WriteByte(',')
 			}
+			b.WriteString(pd.pad(r))
 			b.WriteString(c13aCsvField(r, f, ',', (k == 0 || k == 3 || k == 4 || k == 9 || k == 12) && r.chance(70)))
 		}
 		b.WriteString(pick(r, []string{"\n", "\n", "\r\n"}))
@@ -1138,7 +1150,9 @@ func c13bGenSwissquote(r *rng, mal string) c13bCase {
 				if j > 0 {
 					b.WriteByte(';')
 				}
-				if (j == 2 || j == 4) && (strings.ContainsAny(f, ";\"") || strings.HasPrefix(f, " ")) {
+				if raw, ok := c13aLazyField(r, f, ';'); ok && (j == 2 || j == 4) {
+					b.WriteString(raw) // a bare quote inside an unquoted field (LazyQuotes)
+				} else if (j == 2 || j == 4) && (strings.ContainsAny(f, ";\"") || strings.HasPrefix(f, " ")) {
 					b.WriteString("\"" + strings.ReplaceAll(f, "\"", "\"\"") + "\"")
 				} else {
 					b.WriteString(f)
@@ -1471,7 +1485,7 @@ var c13bGenFuncs = map[string]func(r *rng, mal string) c13bCase{
 	"swissquote": c13bGenSwissquote, "interactivebrokers": c13bGenIB,
 }
 
-var c13bMalKinds = []string{"date", "datefmt", "amount", "cols", "cur", "acct"}
+var c13bMalKinds = []string{"date", "datefmt", "amount", "cols", "cur", "acct", "quote"}
 
 // genC13b: n well-formed statements per importer and n/3 damaged ones; args may name a subset
 // of importers.
